@@ -461,9 +461,10 @@ def execute(case, keep_log=False):
                 except Exception as e:
                     outcome = "raised:" + type(e).__name__
                 faulted = fs.fired != fired_before
+                returned_despite = faulted and outcome == "loaded"  # must then be the right result
                 if outcome == "timeout":
                     res.violation("L1-termination", "load", "load over route %s of a %s file did not terminate within the step budget (policy %s, pickup %s)" % (route, state, kn["policy"], exp["pickup"]), site=kn["policy"])
-                elif state == "ref" and not faulted:
+                elif state == "ref" and (not faulted or returned_despite):
                     if outcome != "loaded":
                         res.violation("D1-durable", "load", "an acknowledged file could not be loaded over route %s: %s" % (route, outcome), site=route)
                     elif import_ok:
